@@ -23,7 +23,7 @@ ASSUMPTIONS = [
     'correspondence do not); composite primary keys and inheritance are not generated',
     'theorems hold for histories that reach no dirty site of the model (s_dirty = 0): sites 1-8 are known findings / legitimate partial failures of the code, '
     'sites 20-28 are assertion sites believed unreachable (a hit in the correspondence run is reported as a broken tie)',
-    'C10 proper is explored, not proved; the theorem listed covers plain integer attributes only',
+    'C10 proper is explored, not proved; the theorems listed cover assignments to scalar attributes only',
     'steps the model declines (a deleted object used as a reference value, Entity.set mixing reference and collection arguments, insertion order that depends on '
     'Python set iteration) end the comparison of that history',
 ]
@@ -36,7 +36,7 @@ def search(ctx, deep): return chk.search(ctx, deep, ID)
 def replay(ctx, data): return chk.replay(ctx, data, ID)
 
 
-LEVEL_TEXT = ("Exploration plus partial proof, Stage 1 schema space. EXPLORED on every run: in generated histories on real Pony + SQLite every successful read - attribute, reference, collection members, count(), is_empty(), `in`, E[pk], E.get(attr=v), E.select(attr=v), E.select() - must return what an independent logical reference state of the session says (tools/session_spec.py: all earlier successful modifications applied, flushed or not; queries by a key that two pending objects hold are not judged); reads that raise AssertionError are reported. PROVED (Coq, every well-formed schema and every history of the executable session model that reached no dirty site): after obj.a = z succeeded on a plain integer attribute, obj.a reads z (loaded or new object, flushed or not). NOT proved: the general statement for references, collections, counts and queries. Five defects are refuted by model witnesses (get()/select() by an unsaved object as reference value miss the session's own objects; count() after remove with cascade delete is one too low / negative; reading a collection raises AssertionError after a failed auto-flush or an unlink/relink of a new object; an assignment to a seed object is not read back); two more are consequences of C11/C12 findings.")
+LEVEL_TEXT = ("PARTIAL proof (mechanism only) plus exploration, Stage 1 schema space. EXPLORED on every run: in generated histories on real Pony + SQLite every successful read - attribute, reference, collection members, count(), is_empty(), `in`, E[pk], E.get(attr=v), E.select(attr=v), E.select() - must return what an independent logical reference state of the session says (tools/session_spec.py: all earlier successful modifications applied, flushed or not; queries by a key that two pending objects hold are not judged); reads that raise AssertionError are reported. PROVED (Coq, every well-formed schema and every history of the executable session model that reached no dirty site): after obj.a = v succeeded on a scalar attribute (int or str, unique or not) obj.a reads the stored value (loaded or new object, flushed or not). NOT proved: the general statement for references, collections, counts and queries. Defects are refuted by model witnesses stated under source-derived flags (get()/select() by an unsaved object as reference value miss the session\'s own objects - repairs proposed; reading a collection raises AssertionError after a failed auto-flush; an assignment to a seed object is not read back); count() after remove being one too low and the Set.copy assertion were repaired in /repo by 11753a1 (recorded as fixed; the witness is vacuous, a regression theorem states count() = 0); two more are consequences of C11/C12 findings.")
 LEVEL_NOTE = ('Trusted: the reference state, the fuzzer harness, SQLite; for the theorem the Coq kernel and the hand-written session model tied by differential runs. Aggregates, to_dict(), exists(), many-to-many collections and the query result cache are outside the generator.')
 TECHNIQUE = 'exploration of generated operation histories on real Pony+SQLite against a logical reference state (property oracle, ddmin shrinking); Coq theorems over the executable session model for the transaction structure / read-your-own-write; vm_compute correspondence model vs implementation'
 DESIGN_REF = 'DESIGN.md section 5, C10 and Appendix A'
